@@ -30,7 +30,7 @@ def build(rnd, tier, flags):
     r = gen.R(rnd)
     meta = progs.meta_of(flat)
     std = "f2008" if (meta["f08"] or g.o.f08) else r.pick(["f2003", "f2008"])
-    lo = layout.FreeOpts(trail_blanks=r.pick([0, 0, 25]), cont=r.pick([0, 10, 20]), lead_amp=50, lit_break=r.pick([0, 30]), comments=r.pick([0, 20]),
+    lo = layout.FreeOpts(trail_blanks=r.pick([0, 0, 25]), big_indent=r.pick([0, 0, 10]), cont=r.pick([0, 10, 20]), lead_amp=50, lit_break=r.pick([0, 30]), comments=r.pick([0, 20]),
                          trailing=r.pick([0, 10]), blank_lines=r.pick([0, 10]), cont_comments=r.pick([0, 30]),
                          indent=True, names=gen.ALL_NAMES, excl=set(flags))
     lay = layout.free_layout(flat, rnd, lo)
